@@ -14,7 +14,7 @@ CHAIN_VARIANTS = ["genuine", "quote-link", "quote-custom-data", "attestation-lin
 
 
 class SgxGen:
-    def __init__(self, rng, hierarchy=None):
+    def __init__(self, rng, hierarchy=None, profile="seeded"):
         self.h = hierarchy or S.Hierarchy(rng)
         self.other = S.Hierarchy(rng)                 # unrelated hierarchy ("wrong root")
         self.stranger = S.P256Key.from_rng(rng)
@@ -24,6 +24,11 @@ class SgxGen:
         self.last_tx = rng.nz_bytes(8)
         self.timestamp = int.from_bytes(rng.nz_bytes(8), "big")
         self.filler = rng.nz_bytes(64)
+        sh = lambda x: L.shape(x, profile)       # noqa: E731
+        self.ud, self.best_block, self.last_tx = sh(self.ud), sh(self.best_block), sh(self.last_tx)
+        self.timestamp = sh((self.timestamp, 8))
+        self.enclave.mrenclave = sh(self.enclave.mrenclave)
+        self.enclave.mrsigner = sh(self.enclave.mrsigner)
         h = self.h
         day = datetime.timedelta(days=1)
         self.certs = {
